@@ -58,6 +58,66 @@ def mdib_walk(ctx: core.Ctx, arg):
                     ctx.count('mdib.condition_signaled_queries')
                     if got != want:
                         ctx.witness('mdib.condition_signaled_lookup', 'descriptions.condition_signaled lookup differs from a scan', detail)
+        _foreign_grouping(ctx, rng, world, cm, mdib_file)
         ctx.case(tuple(shapes))
         world.stop()
     ctx.count('mdib.histories', arg['n'])
+
+
+def _foreign_grouping(ctx, rng, world, cm, mdib_file):
+    """A DescriptionModificationReport as ANOTHER BICEPS provider may group it: ONE report part carries several descriptors with the same parent
+    (the library's own provider sends one descriptor per part).  Built with the library's message types, written to XML, read back and handed
+    to the consumer MDIB; indexed attributes (Source, ConditionSignaled) of several descriptors of one part change."""
+    from sdc11073.mdib.mdibbase import MdibVersionGroup
+    mdib = world.mdib
+    defs = mdib.sdc_definitions
+    msg_types, nsh = defs.data_model.msg_types, defs.data_model.ns_helper
+    by_parent = {}
+    for d in mdib.descriptions.objects:
+        if d.NODETYPE.localname in ('AlertConditionDescriptor', 'LimitAlertConditionDescriptor', 'AlertSignalDescriptor'):
+            by_parent.setdefault(d.parent_handle, []).append(d)
+    groups = [(p, ds) for p, ds in sorted(by_parent.items()) if len(ds) >= 2]
+    if not groups:
+        ctx.count('mdib.foreign_grouping.no_siblings')
+        return
+    metrics = sorted(d.Handle for d in mdib.descriptions.objects if 'Metric' in d.NODETYPE.localname)
+    conditions = sorted(d.Handle for d in mdib.descriptions.objects if 'AlertCondition' in d.NODETYPE.localname)
+    for round_no in range(3):
+        parent, ds = rng.choice(groups)
+        chosen = rng.sample(sorted(ds, key=lambda d: d.Handle), min(len(ds), rng.randrange(2, 5)))
+        report = msg_types.DescriptionModificationReport()
+        part = report.add_report_part()
+        part.ModificationType = msg_types.DescriptionModificationType.UPDATE
+        part.ParentDescriptor = parent
+        for d in chosen:
+            cur = cm.descriptions.handle.get_one(d.Handle, allow_none=True)
+            if cur is None:
+                continue
+            c = cur.mk_copy()
+            c.DescriptorVersion += 1
+            if hasattr(c, 'Source') and metrics:
+                c.Source = rng.sample(metrics, min(len(metrics), rng.randrange(0, 3)))
+            if hasattr(c, 'ConditionSignaled') and conditions:
+                c.ConditionSignaled = rng.choice(conditions + [None])
+            part.Descriptor.append(c)
+            st = cm.states.descriptor_handle.get_one(d.Handle, allow_none=True)
+            if st is not None:
+                st = st.mk_copy()
+                st.DescriptorVersion = c.DescriptorVersion
+                st.StateVersion += 1
+                part.State.append(st)
+        if len(part.Descriptor) < 2:
+            continue
+        vg = MdibVersionGroup(cm.mdib_version + 1, cm.sequence_id, cm.instance_id)
+        report.set_mdib_version_group(vg)
+        node = report.as_etree_node(report.NODETYPE, nsh.partial_map(nsh.MSG, nsh.PM, nsh.XSI))
+        received = msg_types.DescriptionModificationReport.from_node(node)
+        try:
+            cm.process_incoming_description_modifications(vg, received)
+        except Exception as ex:  # noqa: BLE001
+            ctx.count(f'mdib.foreign_grouping.raised.{type(ex).__name__}')
+            continue
+        ctx.count('mdib.foreign_grouping.reports')
+        ctx.count('mdib.foreign_grouping.descriptors_in_one_part', len(part.Descriptor))
+        _walk(ctx, 'consumer.after_foreign_grouped_update', [('consumer.descriptions', cm.descriptions), ('consumer.states', cm.states)],
+              {'mdib_file': mdib_file, 'parent': parent, 'descriptors': [d.Handle for d in part.Descriptor]})
